@@ -16,6 +16,7 @@ from .. import pddlgen as G
 from ..core_common import catom, count_groups, cstate
 
 PROP = "C03"
+BATCH = 250
 HEADER = "From Coq Require Import PrimFloat.\nFrom Verif Require Import Spec.Pddl Corr.Core Corr.C03.\n"
 
 
@@ -465,7 +466,7 @@ def run(args):
         worlds, exhaustive = generate(rng, args.tier)
     cfg = run_impl([{"op": "c03.numeric_config"}], nproc=1)[0]
     hashseeds = [0] if args.tier == "quick" else [0, 1, 2]
-    all_cases, all_verdicts = [], ""
+    all_cases, verdict_list, skipped_ok = [], [], 0
     info_total = {"shards": 0, "shard_errors": [], "cmd": ""}
     stats = {"worlds": 0, "worlds_by_stream": {}, "parse_raised": 0, "probes": 0, "app_true": 0, "app_false": 0, "app_raised": 0,
              "succ_returned": 0, "refused_valueerror": 0, "succ_raised_other": 0, "forced_returned": 0,
@@ -478,92 +479,111 @@ def run(args):
              "probes_with_numeric_applied": 0, "numeric_effects_applied": 0, "discrete_effects_applied": 0,
              "d40_class_probes": 0, "features": {}, "compact_worlds": 0, "compact_fallback_full": 0}
     orders_seen = set()
+    all_worlds = worlds
     for hs in hashseeds:
-        results = run_worlds(worlds, hs)
-        lits, units, keep = [], [], []
-        for wi, (wd, res) in enumerate(zip(worlds, results)):
-            if "probes" not in res:
-                if hs == hashseeds[0]:
-                    stats["parse_raised"] += 1
-                continue
-            lit = None
-            if wd.get("compact"):
-                lit = compact_literal(wd, res, cfg["epsilon"])
-                if hs == hashseeds[0]:
-                    stats["compact_worlds" if lit else "compact_fallback_full"] += 1
-            if lit is None:
-                lit = full_literal(wd, res, cfg["epsilon"])
-            lits.append(lit)
-            units.append(2 * len(wd["probes"]))
-            keep.append(wi)
-        verdicts, info = run_case_shards(PROP, "Corr.C03", lits, shard_size=8, units=units, header_extra=HEADER,
-                                         max_bytes=110_000)
-        info_total["shards"] += info["shards"]
-        info_total["shard_errors"] += info["shard_errors"]
-        info_total["cmd"] = info["cmd"]
-        pos = 0
-        for wi, lit in zip(keep, lits):
-            wd, res = worlds[wi], results[wi]
-            for pi, (pr, r) in enumerate(zip(wd["probes"], res["probes"])):
-                for kind in ("succ", "forced"):
-                    ch = verdicts[pos]
-                    pos += 1
-                    one = {"domain_text": wd["domain_text"], "objects": wd["objects"], "states": [wd["states"][pr["state"]]],
-                           "problem_texts": [wd["problem_texts"][pr["state"]]],
-                           "probes": [dict(pr, state=0, call=0)], "stream": wd["stream"], "features": wd["features"],
-                           "witness_of": wd.get("witness_of"), "compact": False}
-                    inp = {"world": one, "unit": kind, "hashseed": hs, "implementation": r}
-                    tr = r.get("trace", {})
-                    nontrivial = hs == hashseeds[0] and ("value" in r.get("succ", {})) and (
-                        tr.get("when_fired", 0) + tr.get("when_not", 0) + tr.get("univ_fired", 0) + tr.get("univ_not", 0) > 0
-                        or tr.get("numeric_applied", 0) > 0 or tr.get("discrete_applied", 0) > 1)
-                    all_cases.append({"lit": lit, "input": inp, "nontrivial": nontrivial,
-                                      "witness_of": wd.get("witness_of"), "klass": pr.get("klass")})
-                    all_verdicts += ch
-        if hs == hashseeds[0]:
-            for wd, res in zip(worlds, results):
-                stats["worlds"] += 1
-                stats["worlds_by_stream"][wd["stream"].split(":")[0]] = stats["worlds_by_stream"].get(wd["stream"].split(":")[0], 0) + 1
-                for f in wd["features"]:
-                    stats["features"][f] = stats["features"].get(f, 0) + 1
-                for pr, r in zip(wd["probes"], res.get("probes", [])):
-                    stats["probes"] += 1
-                    a = r.get("app", {})
-                    stats["app_true" if a.get("value") is True else "app_false" if a.get("value") is False else "app_raised"] += 1
-                    if "value" in r.get("succ", {}):
-                        stats["succ_returned"] += 1
-                    elif r.get("valerr"):
-                        stats["refused_valueerror"] += 1
-                    else:
-                        stats["succ_raised_other"] += 1
-                    if "value" in r.get("forced", {}):
-                        stats["forced_returned"] += 1
-                        if a.get("value") is False:
-                            stats["forced_returned_on_inapplicable"] += 1
-                    stats["order_observed"] += 1 if r.get("obs_order") else 0
-                    stats["order_natural" if pr.get("perm") is None else "order_forced"] += 1
-                    stats["inner_sets_shuffled"] += 1 if pr.get("inner_seed") else 0
-                    if pr.get("perm") is not None:
-                        orders_seen.add((len(r.get("order", [])), tuple(r.get("order", [])), tuple(r.get("uorder", []))))
-                    stats["d40_class_probes"] += 1 if pr.get("d40_class") else 0
-                    tr = r.get("trace")
-                    if tr:
-                        stats["when_groups_fired"] += tr["when_fired"]
-                        stats["when_groups_not_fired"] += tr["when_not"]
-                        stats["probes_with_when_fired"] += 1 if tr["when_fired"] else 0
-                        stats["probes_with_when_not_fired"] += 1 if tr["when_not"] else 0
-                        stats["probes_with_both"] += 1 if tr["when_fired"] and tr["when_not"] else 0
-                        stats["forall_when_instances_fired"] += tr["univ_fired"]
-                        stats["forall_when_instances_not_fired"] += tr["univ_not"]
-                        stats["probes_with_forall_when_fired"] += 1 if tr["univ_fired"] else 0
-                        stats["probes_with_forall_when_not_fired"] += 1 if tr["univ_not"] else 0
-                        stats["probes_with_numeric_applied"] += 1 if tr["numeric_applied"] else 0
-                        stats["numeric_effects_applied"] += tr["numeric_applied"]
-                        stats["discrete_effects_applied"] += tr["discrete_applied"]
+        # in batches: results of a batch are released before the next one (the thorough tier has ~10^5 probes)
+        for b0 in range(0, len(all_worlds), BATCH):
+            worlds = all_worlds[b0:b0 + BATCH]
+            results = run_worlds(worlds, hs)
+            lits, units, keep = [], [], []
+            for wi, (wd, res) in enumerate(zip(worlds, results)):
+                if "probes" not in res:
+                    if hs == hashseeds[0]:
+                        stats["parse_raised"] += 1
+                    continue
+                lit = None
+                if wd.get("compact"):
+                    lit = compact_literal(wd, res, cfg["epsilon"])
+                    if hs == hashseeds[0]:
+                        stats["compact_worlds" if lit else "compact_fallback_full"] += 1
+                if lit is None:
+                    lit = full_literal(wd, res, cfg["epsilon"])
+                lits.append(lit)
+                units.append(2 * len(wd["probes"]))
+                keep.append(wi)
+            verdicts, info = run_case_shards(PROP, "Corr.C03", lits, shard_size=8, units=units, header_extra=HEADER,
+                                             max_bytes=110_000)
+            info_total["shards"] += info["shards"]
+            info_total["shard_errors"] += info["shard_errors"]
+            info_total["cmd"] = info["cmd"]
+            pos = 0
+            for wi, lit in zip(keep, lits):
+                wd, res = worlds[wi], results[wi]
+                light = wd.get("_light")
+                if light is None:
+                    light = wd["_light"] = {"domain_text": wd["domain_text"], "objects": wd["objects"], "stream": wd["stream"]}
+                for pi, (pr, r) in enumerate(zip(wd["probes"], res["probes"])):
+                    for kind in ("succ", "forced"):
+                        ch = verdicts[pos]
+                        pos += 1
+                        if ch == "." and hs != hashseeds[0]:
+                            skipped_ok += 1          # agreeing cases of the further hash seeds are only counted
+                            continue
+                        if ch == ".":
+                            # agreeing case: a light description (shared references), enough for the distinctness hash
+                            inp = {"world": light, "probe": pr, "unit": kind}
+                        else:
+                            one = {"domain_text": wd["domain_text"], "objects": wd["objects"], "states": [wd["states"][pr["state"]]],
+                                   "problem_texts": [wd["problem_texts"][pr["state"]]],
+                                   "probes": [dict(pr, state=0, call=0)], "stream": wd["stream"], "features": wd["features"],
+                                   "witness_of": wd.get("witness_of"), "compact": False}
+                            inp = {"world": one, "unit": kind, "hashseed": hs, "implementation": r}
+                        tr = r.get("trace", {})
+                        nontrivial = hs == hashseeds[0] and ("value" in r.get("succ", {})) and (
+                            tr.get("when_fired", 0) + tr.get("when_not", 0) + tr.get("univ_fired", 0) + tr.get("univ_not", 0) > 0
+                            or tr.get("numeric_applied", 0) > 0 or tr.get("discrete_applied", 0) > 1)
+                        all_cases.append({"lit": lit, "input": inp, "nontrivial": nontrivial,
+                                          "witness_of": wd.get("witness_of"), "klass": pr.get("klass")})
+                        verdict_list.append(ch)
+            if hs == hashseeds[0]:
+                for wd, res in zip(worlds, results):
+                    stats["worlds"] += 1
+                    stats["worlds_by_stream"][wd["stream"].split(":")[0]] = stats["worlds_by_stream"].get(wd["stream"].split(":")[0], 0) + 1
+                    for f in wd["features"]:
+                        stats["features"][f] = stats["features"].get(f, 0) + 1
+                    for pr, r in zip(wd["probes"], res.get("probes", [])):
+                        stats["probes"] += 1
+                        a = r.get("app", {})
+                        stats["app_true" if a.get("value") is True else "app_false" if a.get("value") is False else "app_raised"] += 1
+                        if "value" in r.get("succ", {}):
+                            stats["succ_returned"] += 1
+                        elif r.get("valerr"):
+                            stats["refused_valueerror"] += 1
+                        else:
+                            stats["succ_raised_other"] += 1
+                        if "value" in r.get("forced", {}):
+                            stats["forced_returned"] += 1
+                            if a.get("value") is False:
+                                stats["forced_returned_on_inapplicable"] += 1
+                        stats["order_observed"] += 1 if r.get("obs_order") else 0
+                        stats["order_natural" if pr.get("perm") is None else "order_forced"] += 1
+                        stats["inner_sets_shuffled"] += 1 if pr.get("inner_seed") else 0
+                        if pr.get("perm") is not None:
+                            orders_seen.add((len(r.get("order", [])), tuple(r.get("order", [])), tuple(r.get("uorder", []))))
+                        stats["d40_class_probes"] += 1 if pr.get("d40_class") else 0
+                        tr = r.get("trace")
+                        if tr:
+                            stats["when_groups_fired"] += tr["when_fired"]
+                            stats["when_groups_not_fired"] += tr["when_not"]
+                            stats["probes_with_when_fired"] += 1 if tr["when_fired"] else 0
+                            stats["probes_with_when_not_fired"] += 1 if tr["when_not"] else 0
+                            stats["probes_with_both"] += 1 if tr["when_fired"] and tr["when_not"] else 0
+                            stats["forall_when_instances_fired"] += tr["univ_fired"]
+                            stats["forall_when_instances_not_fired"] += tr["univ_not"]
+                            stats["probes_with_forall_when_fired"] += 1 if tr["univ_fired"] else 0
+                            stats["probes_with_forall_when_not_fired"] += 1 if tr["univ_not"] else 0
+                            stats["probes_with_numeric_applied"] += 1 if tr["numeric_applied"] else 0
+                            stats["numeric_effects_applied"] += tr["numeric_applied"]
+                            stats["discrete_effects_applied"] += tr["discrete_applied"]
     stats["distinct_forced_orders"] = len(orders_seen)
+    all_verdicts = "".join(verdict_list)
     decide(rep, PROP, "Corr.C03", all_cases, all_verdicts, info_total, explain_expr="explain (%s)", header_extra=HEADER,
            max_replays=5)
     cov = rep.coverage
+    cov["evaluations"] = cov.get("evaluations", 0) + skipped_ok
+    cov["traces_validated_against_impl"] = cov.get("traces_validated_against_impl", 0) + skipped_ok
+    if skipped_ok:
+        cov["verdict_counts"]["."] = cov["verdict_counts"].get(".", 0) + skipped_ok
     stats["fixtures_skipped"] = getattr(generate, "skipped_fixtures", [])
     cov["input_distribution"] = stats
     cov["hash_seeds"] = hashseeds
@@ -581,10 +601,13 @@ def run(args):
                    "the parse order (all permutations in thorough when <=4 groups), sets inside a group shuffled too; two units per probe: successor with "
                    "default flags (incl. ValueError on refusal) and forced successor (allow_inapplicable_actions). Non-trivial: the call returned a "
                    "successor and evaluated at least one conditional/universal group, or applied a numeric effect, or >=2 literals; distinct by input hash.")
-    cov["samples"] = [c["input"]["world"]["domain_text"][:500] for c in all_cases[:1]] + \
-                     [{"stream": c["input"]["world"]["stream"], "probe": c["input"]["world"]["probes"][0]["action"],
-                       "args": c["input"]["world"]["probes"][0]["args"], "order": c["input"]["implementation"].get("order"),
-                       "uorder": c["input"]["implementation"].get("uorder")} for c in all_cases[-3:]]
+    def sample_of(c):
+        w = c["input"]["world"]
+        pr = c["input"].get("probe") or (w.get("probes") or [{}])[0]
+        return {"stream": w.get("stream"), "action": pr.get("action"), "args": pr.get("args"), "perm": pr.get("perm"),
+                "unit": c["input"].get("unit")}
+    cov["samples"] = [all_cases[0]["input"]["world"]["domain_text"][:500]] if all_cases else []
+    cov["samples"] += [sample_of(c) for c in all_cases[-3:]]
     rep.assumptions = ["fluent magnitudes below 1e4 and no division by a fluent (C12 covers the arithmetic kernel)", "ASCII text",
                        "states define every fluent",
                        "effects consistent (inconsistent probes are skipped by the spec's own test; model = implementation is still required when the order was observed)"]
